@@ -56,12 +56,15 @@ def judge(records, c, label):
         return False
     if not once(records):
         return []
-    out = []
-    for rec in records[:10]:
-        if once([rec]):
+    # locate one offending record by halving, then a few more among the first records
+    cand = records
+    while len(cand) > 1:
+        half = cand[:len(cand) // 2]
+        cand = half if once(half) else cand[len(cand) // 2:]
+    out = [cand[0]]
+    for rec in records[:6]:
+        if rec is not cand[0] and len(out) < 3 and once([rec]):
             out.append(rec)
-            if len(out) >= 3:
-                break
     return out
 
 
@@ -107,6 +110,20 @@ def run(prop, tier, seed, replay=None):
                            "observed": rec["observed"], "panic": rec.get("panic_text")},
                           "C15_Dispatch fails: observed calls differ from the specification"
                           + (" (panic: " + str(rec.get("panic_text"))[:80] + ")" if rec.get("panic") else ""))
+    # random sets of up to 8 subscriptions (prefixes up to 3 characters, half of them derived from the key)
+    nrand = 1500 if tier == "quick" else 20000
+    p = subprocess.run([binp, "random", str(seed), str(nrand)], text=True, stdout=subprocess.PIPE)
+    if p.returncode != 0:
+        raise vlib.ToolError("listeners random driver failed")
+    recs = [strip_none(json.loads(l)) for l in p.stdout.splitlines() if l.strip()]
+    for rec in judge(recs, consts("pairs", 3, 3), "random"):
+        res.violation({"kind": "listener-case", "case": rec["case"], "scope": ["pairs", 3, 3],
+                       "observed": rec["observed"], "panic": rec.get("panic_text")},
+                      "C15_Dispatch fails for a random set of subscriptions: " + json.dumps(rec["case"])[:200])
+    scopes["random_up_to_8_subscriptions"] = {"cases": len(recs),
+                                               "with_calls": sum(1 for r in recs if r["observed"])}
+    cases += len(recs)
+
     res.coverage = {"states": states, "transitions": transitions,
                     "traces_validated_against_impl": cases - bad, "cases": cases, "cases_with_expected_calls": firing,
                     "mismatching": bad, "scopes": scopes, "exhaustive": True, "samples": samples,
